@@ -44,7 +44,7 @@ def gen_c12(rng, big=False):
         sv["npool"] = "shared"
     if rng.random() < 0.15:
         sv["custom_dispatch"] = True
-    life = rng.choices(["serve", "never-served", "shutdown-inflight", "handle-loop"], [70, 8, 14, 8])[0]
+    life = rng.choices(["serve", "never-served", "shutdown-inflight", "handle-loop", "serve-twice"], [62, 8, 14, 8, 8])[0]
     methods = {"echo": {"kind": "echo"}, "fail": {"kind": "fail"},
                "slow": {"kind": "slow", "d": rng.choice([0.5, 1.0, 2.0])},
                "ns.echo": {"kind": "echo"}, "quit": {"kind": "exit"}}
@@ -221,6 +221,8 @@ def analyse_c12(program, s, run, verdict):
     v = []
     h = parse(program, s, run)
     life = program.get("lifecycle", "serve")
+    if life == "serve-twice":
+        life = "serve"
     methods = program.get("methods", {})
     # termination
     if verdict is not None and verdict.kind in ("deadlock", "stall", "step-cap"):
